@@ -71,6 +71,71 @@ CHECKS['C04'] = dict(
     technique='contract-based deductive verification: PyVC + z3 against schema-table postconditions; bounded inventory cross-check',
 )
 
+TB_CXX = ('CxxVC (vc/cxxvc.py) encodes the C++14 subset correctly; unsigned as integers with no-wrap obligations, float as reals; STL/chart contracts; '
+          'setup contracts for best scores and prefix sums; grammar callback vector = k-th result with rule_id k; see evidence.assumptions')
+CHECKS['C14'] = dict(
+    category='proof',
+    text=('Exception freedom of all 24 combinators, apply_binary_rules and apply_unary_rules of both grammars for well-formed inputs (noraise obligations of the '
+          'symbolic execution), the seen-rule gate (all-or-nothing on the (X,nb)-erased pair), unary targets in order (map-loop rule), nb-independence (erase lemmas), '
+          'purity by ast frame scans (no store to module state, no id/hash/clock/random), and reproducibility: the only iteration over an unordered collection '
+          '(Unification.__call__ over the shared keys) must iterate over sorted(...) or satisfy a commute obligation on the loop-body summary. '
+          'BOUNDED: real rules on shipped inventories/seen rules, two calls, argument snapshots, runs under several PYTHONHASHSEED values.'),
+    design_ref='DESIGN.md section 4, C14', note=TB_PY + '; precondition: one feature system per call',
+    technique='contract-based deductive verification: PyVC noraise/frame/commute obligations + z3; bounded hash-seed differential',
+)
+CHECKS['C09'] = dict(
+    category='proof',
+    text=('CxxVC generates, from clang\'s AST of the real parsing.h, one obligation per construction site of a chart item (leaf, goal, unary, two binary sites) and path: '
+          'in_score equals the statement\'s recurrence (tag score; child - penalty; left + right + dep[non-head head][head head + 1]; + dep[head][0] at the root), head_id is the '
+          'head of the head child per the head flag of the very rule result, all matrix indices in range, no unsigned wrap-around; discharged by z3 for all inputs (floats as reals). '
+          'By induction the stored score is the model score of the derivation. BOUNDED: real parsing.h + DePyx pyx text against recomputation from the returned tree.'),
+    design_ref='DESIGN.md section 4, C09', note=TB_CXX,
+    technique='contract-based deductive verification: CxxVC (clang JSON AST -> z3) invariant rule over the search loop; bounded oracle run',
+)
+CHECKS['C16'] = dict(
+    category='proof',
+    text=('Leaf loop of parse_sentence: for an arbitrary token and an arbitrary iteration of the pruning loop the pushed leaf carries the popped candidate, '
+          'i < pruning_size, and with the beta filter on exp(score) >= beta * exp(best tag score); a candidate is skipped only by a break that is sound because later '
+          'candidates are no better; with the filter off every popped candidate becomes a leaf; the search loop never creates leaf items. BOUNDED oracle run on the real code.'),
+    design_ref='DESIGN.md section 4, C16', note=TB_CXX + '; exp positive and monotone; priority_queue contract',
+    technique='contract-based deductive verification: CxxVC loop rule over the leaf loop + z3; bounded oracle run',
+)
+CHECKS['C02'] = dict(
+    category='proof',
+    text=('Inv is re-established at every push site of the search loop: span inside the sentence, children adjacent and their union is the new span, left/right are '
+          'the combined items, the category is the k-th result of the callback for the children\'s categories, goal items only for full-span items with an allowed root, '
+          'unary steps not at the root of a multi-word sentence, leaf items only from the beam loop; index bounds and no unsigned wrap. '
+          'Tree reconstruction in parsing.pyx (retrieve_tree/run) is covered by the BOUNDED run on the DePyx text.'),
+    design_ref='DESIGN.md section 4, C02', note=TB_CXX + '; retrieve_tree only bounded',
+    technique='contract-based deductive verification: CxxVC invariant rule + z3; bounded real-code run for the pyx half',
+)
+CHECKS['C01'] = dict(
+    category='proof',
+    text=('Proved for all inputs: the outside estimate invariant (best remaining tag and head scores incl. the own head), the inside bound, and MONOTONE: every item pushed '
+          'while processing a popped item has priority <= the popped priority (leaf, unary, both binary sites, goal); with top() a maximum this gives non-increasing popped '
+          'priorities - the observable clause of C01. Optimality itself rests on the A* meta-theorem (assumed, named) and is checked BOUNDED against an exhaustive oracle '
+          'on the real code with the pop hook.'),
+    design_ref='DESIGN.md section 4, C01', note=TB_CXX + '; A* meta-theorem assumed; optimality clause bounded',
+    technique='contract-based deductive verification: CxxVC invariant + monotonicity obligations + z3; bounded oracle for optimality',
+)
+CHECKS['C12'] = dict(
+    category='proof',
+    text=('Parser half: at every push site the stored rule_id is the index k of the very result being iterated and the head is taken per that result\'s head flag (CxxVC). '
+          'Reader half: guess_combinator_by_triplet is proved by a find-first loop rule for an arbitrary rule function (first rule deriving the target, else unk) and every '
+          'call site passes rule.op_string / rule.op_symbol / the right head source to Tree.make_binary with matching arity (ast data-flow obligations). '
+          'BOUNDED: labels/head flags of trees returned by the real parser (DePyx text) for grammars with distinct labels.'),
+    design_ref='DESIGN.md section 4, C12', note=TB_CXX + '; ' + TB_PY,
+    technique='contract-based deductive verification: CxxVC + PyVC loop rule + ast call-site obligations; bounded real-code run',
+)
+CHECKS['C10'] = dict(
+    category='exploration',
+    text=('Decided BOUNDED: run-time contract of the real parse_sentence (compiled from the working tree) against exhaustive enumeration of all derivations on seeded small '
+          'cases: min(k, #derivations) parses, pairwise different, non-increasing, scores equal to the k largest. Deductive obligations (only final items reach the goal cell, '
+          'only the goal site creates them) are included but the k-best clause has no contract-level proof here, so the level is exploration, not proof.'),
+    design_ref='DESIGN.md section 4, C10', note='bounded oracle; float tolerance 2e-4 relative',
+    technique='bounded run-time contract against an exhaustive oracle (stand-in; k-best meta-theorem not proved), plus CxxVC side obligations',
+)
+
 NA_REASON = {}
 
 
